@@ -143,7 +143,9 @@ func c25Extra(r *fw.Rand) string {
 			b.WriteString("\t" + s + "\n")
 		}
 	}
-	b.WriteString("\tfmt.Println(xs)\n}\n\n")
+	b.WriteString("\tfmt.Println(xs)\n\tfmt.Println(describeStringer(S{Num: 1, Txt: \"t\"}), stringerOf(3))\n}\n\n")
+	// fmt named only in signatures (the import must survive the conversion)
+	b.WriteString("func describeStringer(s fmt.Stringer) string { return \"<\" + s.String() + \">\" }\n\nfunc stringerOf(n int) fmt.Stringer { return S{Num: n} }\n\n")
 	return b.String()
 }
 
